@@ -8,14 +8,14 @@ from vlib import *
 TRACE_CFG = "SigNonceTrace.cfg"
 DEFECT_CFGS = ["SigNonce_defect_no_increment.cfg", "SigNonce_defect_nonce_not_checked.cfg",
                "SigNonce_defect_chain_not_checked.cfg", "SigNonce_defect_sig_not_checked.cfg",
-               "SigNonce_defect_check_leaks.cfg"]
+               "SigNonce_defect_check_leaks.cfg", "SigNonce_defect_rewrite_resets_sequence.cfg"]
 ROUTES = ["eth-legacy", "eth-accesslist", "eth-dynamicfee", "cosmos-direct", "cosmos-amino-json", "eip712", "eip712-direct"]
 CHUNK_LINES = 9000
 MAX_CONFIRM = 12
 
 MANIFEST_ENTRY = dict(engine="SigNonce", design="§4 C03",
    technique="TLA+ spec SigNonce.tla: TLC exhaustive model checking of the sequence/replay machine (CheckTx and deliver state, all orders of a pool of submissions) and TLC enumeration of the mutation matrix (route x field x mutation); TLC-simulated submission orders and every matrix case executed through the real CheckTx/DeliverTx (full ante chain) of the application; every recorded submission validated by TLC against the property layer (trace validation)",
-   text="TLC proves on the model that with separate CheckTx and deliver sequences, nonce = sequence and increment-on-accept, no transaction is executed twice or with a wrong nonce in any order of valid, replayed, stale, future, badly signed and foreign-chain submissions over several blocks, and that each named way of breaking this is caught. The binding to the code: TLC enumerates the mutation matrix (every signed field, signature component, envelope field, foreign-chain signature and every position of one unauthorised message in 2-3 message Ethereum batches of the same or different senders, for legacy / access-list / dynamic-fee Ethereum transactions, Cosmos DIRECT and amino-JSON transactions, legacy Web3Tx EIP-712 and EIP-712-over-sign-doc transactions); for every case the harness signs a valid transaction, applies the one mutation without signing again, sends the bytes through the real CheckTx and DeliverTx, then delivers the unmutated transaction (which must be accepted, so the mutation was the reason of the rejection); TLC-simulated and seeded random orders of submissions with replays are run the same way. TLC checks every recorded response and the sequences / balances / fee collector before and after against the property layer.",
+   text="TLC proves on the model that with separate CheckTx and deliver sequences, nonce = sequence and increment-on-accept, no transaction is executed twice or with a wrong nonce in any order of valid, replayed, stale, future, badly signed and foreign-chain submissions over several blocks, and that each named way of breaking this is caught. The binding to the code: TLC enumerates the mutation matrix (every signed field, signature component, envelope field, foreign-chain signature and every position of one unauthorised message in 2-3 message Ethereum batches of the same or different senders, VM-level failures and contract creations at every position of a batch followed by the replay of each message, for legacy / access-list / dynamic-fee Ethereum transactions, Cosmos DIRECT and amino-JSON transactions, legacy Web3Tx EIP-712 and EIP-712-over-sign-doc transactions); for every case the harness signs a valid transaction, applies the one mutation without signing again, sends the bytes through the real CheckTx and DeliverTx, then delivers the unmutated transaction (which must be accepted, so the mutation was the reason of the rejection); TLC-simulated and seeded random orders of submissions with replays, interleaved with x/vesting events that re-write the account object (conversion into a vesting account by a third party, merge, funder update, clawback, conversion back), are run the same way. TLC checks every recorded response and the sequences / balances / fee collector before and after against the property layer.",
    note="Cryptography itself (secp256k1, keccak) is trusted; one chain (haqq_11235-1), so replay onto a chain with the same EIP-155 number and another epoch is out of reach; multi-signer and multisig transactions are not in the matrix; bounds in specs/SigNonce_*.cfg.")
 
 
@@ -103,6 +103,7 @@ def run(c):
     scenarios = [{"cfg": {"seed": c.seed * 100 + rep}, "cases": cases, "rep": rep} for rep in range(reps)]
     for i, s in enumerate(scripts):
         steps = [{"ev": "commit"} if st["ev"] == "commit" else
+                 {"ev": "event", "kind": st["kind"], "target": st["target"]} if st["ev"] == "event" else
                  {"ev": "submit", "mode": st["mode"], "tx": {k: st["tx"][k] for k in ("id", "signer", "nonce", "nm", "route", "q", "qpos") if k in st["tx"]}}
                  for st in s]
         scenarios.append({"cfg": {"seed": c.seed * 100000 + i}, "steps": steps})
@@ -138,18 +139,36 @@ def run(c):
             if mode != "deliver":
                 continue
             key = "mutated_" + outcome
+        elif role == "replay":
+            key = "batch_message_replay_" + outcome
         else:
             key = "original_accepted" if outcome == "accepted" else "original_rejected_as_replay"
         p[key] = p.get(key, 0) + v
     c.extra["per_route"] = per_route
-    vacuous, by_class, nonce_classes = [], {}, {}
+    vacuous, by_class, nonce_classes, events, vm_batches = [], {}, {}, {}, {}
     cur = {}
     with open(os.path.join(wd, "trace.ndjson")) as fh:
         for line in fh:
             o = json.loads(line)
+            if o["ev"] == "event":
+                k = o["kind"] + ("/ok" if o["ok"] else "/failed")
+                events[k] = events.get(k, 0) + 1
+                if o["ok"] and o["pre"]["seq"][o["target"]] > 0:
+                    events["ok-on-account-with-history"] = events.get("ok-on-account-with-history", 0) + 1
+                continue
             if o["ev"] != "submit":
                 continue
-            if o["role"] == "mut" and o["mode"] == "deliver":
+            if o["role"] == "mut" and o["mode"] == "deliver" and o["case"]["field"] == "batch" and "@" in o["case"]["mut"] \
+                    and o["case"]["mut"].split("@")[0] in ("revert", "oog", "create"):
+                # authorised batch with a VM-level failure / a creation: it must have been included,
+                # and the failure must really have happened inside the virtual machine
+                kind, pos = o["case"]["mut"].split("@")[0], int(o["case"]["mut"].split("@")[1].split("/")[0])
+                bad = not o["ok"] or (kind != "create" and not (len(o["vmErrors"]) >= pos and o["vmErrors"][pos - 1]))
+                if bad:
+                    vacuous.append("%s:%s:%s" % (o["case"]["route"], o["case"]["field"], o["case"]["mut"]))
+                vm_batches[kind] = vm_batches.get(kind, 0) + 1
+                cur = {"case": o["case"], "mut_ok": True}
+            elif o["role"] == "mut" and o["mode"] == "deliver":
                 cur = {"case": o["case"], "mut_ok": o["ok"]}
                 if len(c.samples) < 3 and o["case"]["field"] in ("value", "feeGranter", "signedFor"):
                     c.samples.append({k: o[k] for k in ("mode", "role", "case", "tx", "code", "err")} |
@@ -170,6 +189,13 @@ def run(c):
     c.extra["matrix_cases_by_class"] = by_class
     c.extra["order_deliver_outcomes"] = nonce_classes
     c.extra["vacuous_cases"] = vacuous[:20]
+    c.extra["account_rewriting_events"] = events
+    c.extra["vm_level_batches"] = vm_batches
+    for kind in ("convert", "merge", "funder", "clawback", "back"):
+        if events.get(kind + "/ok", 0) < 1:
+            raise Infra("vacuous run: no successful %s event (%s)" % (kind, events))
+    if events.get("ok-on-account-with-history", 0) < 20:
+        raise Infra("vacuous run: too few account-rewriting events on accounts that had sent transactions (%s)" % events)
     if vacuous:
         raise Infra("vacuous matrix cases (neither the mutated nor the original transaction was accepted): %s" % vacuous[:8])
     for rt in ROUTES:
@@ -200,6 +226,8 @@ def run(c):
             for ln in lines[1:]:
                 if ln["ev"] == "commit":
                     steps.append({"ev": "commit"})
+                elif ln["ev"] == "event":
+                    steps.append({"ev": "event", "kind": ln["kind"], "target": ln["target"]})
                 elif ln["ev"] == "submit":
                     steps.append({"ev": "submit", "mode": ln["mode"], "tx": {k: ln["tx"][k] for k in ("id", "signer", "nonce", "nm", "route", "q", "qpos") if k in ln["tx"]}})
             script = {"cfg": head["cfg"], "steps": steps}
